@@ -11,6 +11,8 @@ from pymemcache.exceptions import MemcacheIllegalInputError
 
 PROPERTY = "C20"
 LEVEL = "exploration"
+# parts repeated in a child interpreter started with -O and with warnings turned into errors (vlib/runner.py, MODES)
+MODE_PARTS = {"OW": ['class-exhaustive', 'every-position', 'length-boundaries', 'same-object-histories', 'server-unreachable', 'full-alphabet-short']}
 RULE = ("case = (key, prefix, allow_unicode_keys, path); path in helper (check_key_helper) / client "
         "(Client.check_key) / pooled (PooledClient.check_key) / wire-client, wire-pooled, wire-hash (a get over the "
         "fake network; the memcached model's parsed command must carry exactly prefix+encoded key). Enumerated: all "
